@@ -447,7 +447,8 @@ def queue_init_modes(ctx, qual):
             st = c
             while st is not None and not isinstance(st, ast.stmt):
                 st = mod.parents.get(id(st))
-            inner = path_conditions(mod, st, stop=n)
+            inner = [(t, pol) for t, pol in path_conditions(mod, st, stop=n)
+                     if any(isinstance(x, ast.Name) and x.id == tv for x in ast.walk(expand(fn, t, stores)))]
             if inner and name in ('self.restore_base_item', 'self.pcfg.restore_prob_order', 'self.insert_queue', 'push'):
                 out.setdefault('per_item', []).append('%s only if %s' % (name, ' and '.join(('' if pol else 'not ') + '(%s)' % U(t) for t, pol in inner)))
                 continue
